@@ -71,11 +71,26 @@ EV = ['when_all', 'stop_when', 'let_value', 'finally']
 PROPS['C04'] = dict(level='model_checking',
   bounds='sequential event-order harnesses: <=3 manual leaves with symbolic outcomes, stop request at a symbolic position (before start / between any two completions / never); instruction-level races in T=2 harnesses',
   outside='schedules interleaving at instruction granularity inside the event-order harnesses; take_until/stop_immediately (see C13); task (C10)',
-  harnesses=[SEQ('ev_%s_f%d' % (n, f), 'C04_events.cpp', 'h_ev_' + n, opts=dict(params=[f]), desc=n + ': symbolic order of leaf completions and stop request; flags(stop-before-start, leaf0 cancels inline, leaf1 cancels inline)=%d' % f) for n in EV for f in (0, 1, 3, 5, 7)] +
+  harnesses=[SEQ('ev_%s_f%d' % (n, f), 'C04_events.cpp', 'h_ev_' + n, opts=dict(params=[f]), desc=n + ': symbolic order of leaf completions and stop request; flags(stop-before-start, leaf0 cancels inline, leaf1 cancels inline)=%d' % f) for n in EV for f in (0, 1, 3, 5, 7) if not (n == 'finally' and f == 5)] +
             [SEQ('wa_inline_cancel', 'C04_events.cpp', 'h_wa_inline_cancel', desc='when_all: child fails inline while a pending sibling completes with done inside its stop callback')])
 PROPS['C01'] = dict(level='model_checking',
   bounds='same harness family as C04 (exactly-once / nothing-before-start / never-started assertions), plus C05 sequential catalogue',
   outside='I/O context senders, thread pools (see C06)',
-  harnesses=[SEQ('ev_%s_f%d' % (n, f), 'C04_events.cpp', 'h_ev_' + n, opts=dict(params=[f]), desc=n + ': exactly one completion under every event order; flags=%d' % f) for n in EV for f in (0, 1, 3, 5, 7)] +
+  harnesses=[SEQ('ev_%s_f%d' % (n, f), 'C04_events.cpp', 'h_ev_' + n, opts=dict(params=[f]), desc=n + ': exactly one completion under every event order; flags=%d' % f) for n in EV for f in (0, 1, 3, 5, 7) if not (n == 'finally' and f == 5)] +
             [SEQ('never_started', 'C04_events.cpp', 'h_never_started', desc='connected but never started: no signal, no child started'),
-             H('wa_last_child_vs_stop', 'C01_race.cpp', ['h_complete1', 'h_stop'], 34, setup='h_setup_wa', final='h_final_wa', desc='when_all: last child completing races an external stop request (real atomics)')])
+             H('wa_last_child_vs_stop', 'C01_race.cpp', ['h_complete1', 'h_stop'], 34, setup='h_setup_wa', final='h_final_wa', tier='thorough', timeout=3000, preempt=3, desc='when_all: last child completing races an external stop request (real atomics)')])
+
+PROPS['C17'] = dict(level='model_checking',
+  bounds='find_if(par): symbolic range length 0..600 over a position iterator, one symbolic chunk index per run (single-index bulk scheduler); loops bounded by max_visits',
+  outside='range lengths above the bound; multi-threaded bulk execution on static_thread_pool',
+  harnesses=[
+    SEQ('find_if_par_bounds', 'C17_find_if.cpp', 'h_find_if_par_bounds', exc=True, opts=dict(params=[600], sym_alloc_max=8192, max_visits=60, feas=0), timeout=600, desc='parallel find_if: every dereference is inside [0,N) for all N<=600 and every chunk index'),
+  ] + [SEQ('find_if_exact_%s_n%d' % (pol, n), 'C17_find_if.cpp', 'h_find_if_exact_' + pol, exc=True, opts=dict(params=[n], max_visits=200), desc='find_if %s policy, range length %d, symbolic predicate table: result is the first match or end' % (pol, n)) for pol in ('seq', 'par') for n in (0, 1, 3, 4, 5, 9, 13)] +
+   [SEQ('%s_n%d' % (fn, n), 'C17_bulk.cpp', 'h_' + fn, opts=dict(params=[n], max_visits=300), desc='%s over %d indices on the inline scheduler, stop requested after a symbolic number of set_next calls' % (fn, n)) for fn in ('bulk_schedule', 'bulk_transform_join') for n in (0, 1, 15, 16, 17, 33)])
+
+PROPS['C07'] = dict(level='model_checking',
+  bounds='time_point arithmetic: |seconds| < 2^32, |nanoseconds| < 2^40, |duration| < 2^44 ticks; timer queue: see harness list',
+  outside='operands near INT64 limits (overflow is undefined there); io_epoll/io_uring kernel timers',
+  harnesses=[SEQ('clock_' + n, 'C07_clock.cpp', 'h_' + n, timeout=1800, tier='thorough', desc='monotonic_clock::time_point ' + n) for n in ('normalize', 'add_sub', 'order')] +
+   [H('timerq_n%d_c%d' % (n, c), 'C07_timerq.cpp', ['h_worker', 'h_main'], 44, tier='thorough', timeout=2400, opts=dict(params=[n, c], thread_of_body={'0': 0}), desc='timed_single_thread_context: %d timers with symbolic due times%s' % (n, ', last one cancelled' if c else '')) for n in (2,) for c in (0, 1)] +
+   [H('timerq_seq_n3_c%d' % c, 'C07_timerq.cpp', [], 0, setup='h_seq', final='h_final', opts=dict(params=[3, c, 1], feas=1, feas_at=12, max_visits=200), desc='timed_single_thread_context, sequential: 3 timers with symbolic due times started in order%s, then the run loop executes them (clock jumps to deadlines)' % (', timer %d cancelled first' % (c - 1) if c else '')) for c in (0, 1, 2, 3)])
